@@ -50,6 +50,16 @@ let rec perms = function
            let rest = List.filteri (fun j _ -> j <> i) l in
            List.map (fun p -> x :: p) (perms rest)) l)
 
+(* CheckDBsSynced ranges over a Go map: which error it reports depends on the order.  The kinds some
+   order can produce, from the marks alone (fid = expected flush ID, if any): *)
+let possible_errors fk (w : (n * (n list * n list) list) list) (fid : n list option) : string list =
+  let marks = List.filter_map (fun (_, c) -> dget fk c) w in
+  let dirty m = (match m with d :: _ -> Z.to_int (z_of_n d) = 222 | [] -> false) in
+  let cleans = List.sort_uniq compare (List.filter (fun m -> not (dirty m)) marks) in
+  let cleans' = (match fid with Some f -> List.sort_uniq compare (f :: cleans) | None -> cleans) in
+  (if List.exists dirty marks then ["E:d"] else [])
+  @ (if List.length cleans' > 1 && cleans <> [] then ["E:s"] else [])
+
 let cres_tok = function
   | COk None -> "N"
   | COk (Some m) -> "O:" ^ h m
@@ -133,10 +143,16 @@ let eval inp obs =
   let header, ops = (match groups with hd :: tl -> hd, tl | [] -> failwith "empty") in
   let mode, fk, scale = (match header with
     | m :: fk :: sc :: _ -> m, bytes_of_hex fk, n_of_tok sc | _ -> failwith "bad header") in
+  (* K n = open + close of the handle (no effect); BB n ws1 ws2 = one batch written three times *)
+  let ops = List.concat_map (fun o -> match o with
+    | ["K"; n] -> [["O"; n]]
+    | ["BB"; n; a; b] -> [["B"; n; a]; ["B"; n; a]; ["B"; n; b]]
+    | _ -> [o]) ops in
   let og = split_on ";" obs in
   let sect name = (match List.find_opt (fun g -> match g with x :: _ -> x = name | [] -> false) og with
     | Some (_ :: t) -> t | _ -> []) in
-  let ilog = sect "LOG" and iverd = sect "V" and isnaps = sect "S" and ipres = sect "Q" and ixverd = sect "X" in
+  let ilog = sect "LOG" and iverd = sect "V" and isnaps = sect "S" and ipres = sect "Q" and ixverd = sect "X"
+  and iyverd = sect "Y" and izverd = sect "Z" in
   (* flush segments of the implementation's log *)
   let segs = ref [] and cur = ref None in
   List.iter (fun t ->
@@ -189,7 +205,7 @@ let eval inp obs =
       List.iter (fun o -> if !dead then () else if o = ["R"] then begin
           let before = List.length !st.rs_log in
           let w = crash !st.rs_log (nat_of_int before) in
-          let order = List.sort (fun a b -> Z.compare (z_of_n a) (z_of_n b)) (List.map fst w) in
+          let order = List.sort (fun a b -> compare (tok_of_n a) (tok_of_n b)) (List.map fst w) in (* Go sorts the names "db<n>" as strings *)
           (match restart_pool fk !st (nat_of_int before) order with
            | Some s' -> st := s'; push "R"; List.iter (fun d -> push (tok_of_dop d)) (drop before s'.rs_log)
            | None -> dead := true; push "Rerr")
@@ -209,7 +225,7 @@ let eval inp obs =
       List.iter (fun o -> if !dead then () else if o = ["R"] then begin
           let before = List.length !st.fr_log in
           let w = crash !st.fr_log (nat_of_int before) in
-          let order = List.sort (fun a b -> Z.compare (z_of_n a) (z_of_n b)) (List.map fst w) in
+          let order = List.sort (fun a b -> compare (tok_of_n a) (tok_of_n b)) (List.map fst w) in (* Go sorts the names "db<n>" as strings *)
           (match restart_flagged fk !st (nat_of_int before) order with
            | Some s' -> st := s'; push "R"; List.iter (fun d -> push (tok_of_dop d)) (drop before s'.fr_log)
            | None -> dead := true; push "Rerr")
@@ -235,8 +251,8 @@ let eval inp obs =
     let canon = cres_tok (check_synced fk w) in
     mverd_sorted := canon :: !mverd_sorted;
     let it = if k < Array.length iverd_a then iverd_a.(k) else "" in
-    if it = canon || List.length w > 6 then canon
-    else if List.exists (fun p -> cres_tok (check_synced fk p) = it) (perms w) then it else canon) in
+    if it = canon then canon
+    else if String.length canon > 0 && canon.[0] = 'E' && List.mem it (possible_errors fk w None) then it else canon) in
   let mverd_sorted = List.rev !mverd_sorted in
   let ixverd_a = Array.of_list ixverd in
   let mxverd_sorted = ref [] in
@@ -247,12 +263,25 @@ let eval inp obs =
     let canon = cres_tok (check_loop fk w f false) in
     mxverd_sorted := canon :: !mxverd_sorted;
     let it = if k < Array.length ixverd_a then ixverd_a.(k) else "" in
-    if it = canon || List.length w > 6 then canon
-    else if List.exists (fun p -> cres_tok (check_loop fk p f false) = it) (perms w) then it else canon) in
+    if it = canon then canon
+    else if String.length canon > 0 && canon.[0] = 'E' && List.mem it (possible_errors fk w f) then it else canon) in
   let mxverd_sorted = List.rev !mxverd_sorted in
+  (* Initialize over the survivors plus a name that does not exist (created empty) / over all but the
+     first survivor (names in Go's string order of "db<n>") *)
+  let variant (iv : string list) (f : (n * (n list * n list) list) list -> (n * (n list * n list) list) list) =
+    let a = Array.of_list iv in
+    List.init (nlog + 1) (fun k ->
+      let w = f (crash mlog (nat_of_int k)) in
+      let canon = cres_tok (check_synced fk w) in
+      let it = if k < Array.length a then a.(k) else "" in
+      if it = canon then canon
+      else if String.length canon > 0 && canon.[0] = 'E' && List.mem it (possible_errors fk w None) then it else canon) in
+  let myverd = variant iyverd (fun w -> w @ [(n_of_tok "999999", [])]) in
+  let mzverd = variant izverd (fun w ->
+    match List.sort (fun (a, _) (b, _) -> compare (tok_of_n a) (tok_of_n b)) w with [] -> [] | _ :: t -> t) in
   let msnaps = List.map (fun r -> snap_tok r.r_snap) mrecs in
   let mpres = List.rev !mpres in
-  let model_obs = ("LOG" :: List.rev !mlog_toks) @ [";"; "V"] @ mverd @ [";"; "S"] @ msnaps @ [";"; "Q"] @ mpres @ [";"; "X"] @ mxverd @ [";"; "R1"] in
+  let model_obs = ("LOG" :: List.rev !mlog_toks) @ [";"; "V"] @ mverd @ [";"; "S"] @ msnaps @ [";"; "Q"] @ mpres @ [";"; "X"] @ mxverd @ [";"; "Y"] @ myverd @ [";"; "Z"] @ mzverd @ [";"; "R1"] in
   (* ---- the property on the implementation's data *)
   let idur = List.filter (fun t -> t <> "F" && t <> "f" && t <> "ferr" && t <> "R" && t <> "Rerr") ilog in
   let spec_ok, why = (try
